@@ -29,6 +29,10 @@ def build(cls_name, model, loss, names, overrides, clock, rnd):
                 st = storage_proxy(rnd.choice([UniformReservoirStorage, GeometricReservoirStorage]), clock)(
                     size=rnd.choice([1, 3, 50]), store_targets=rnd.random() < .5)
                 kw["storage"] = st
+                if overrides.get("own_imputer"):
+                    from ixai.imputer import MarginalImputer
+                    kw["imputer"] = MarginalImputer(model, "joint", st)
+                    overrides["_imputer_obj"] = kw["imputer"]
         elif cls_name == "IntervalSage":
             kw["interval_length"] = overrides.get("interval", 2)
             kw["storage_length"] = overrides.get("window", 3)
@@ -42,6 +46,7 @@ def build(cls_name, model, loss, names, overrides, clock, rnd):
 
 
 def main(run):
+    from ixai.explainer import IncrementalSage, IncrementalPFI
     run.rule = ("offline contract checker over the event log of generated call histories for the product explainer class "
                 "{IncrementalPFI, IncrementalSage, BatchSage, IntervalSage} x {required arguments only, overrides} x feature-name "
                 "types {str,int,float,mixed} x d in 1..5 x n_inner (constructor and per-call override) x update_storage flags; the "
@@ -59,6 +64,9 @@ def main(run):
     for rep in range(REPS[run.tier]):
         for cls_name, nk, d, use_over in itertools.product(classes, ["str", "int", "float", "mixed"], [1, 2, 3, 5], [False, True]):
             names = make_names(nk, d)
+            container = rnd.choice(["list", "list", "tuple"])        # feature names are a Sequence: tuples are as good as lists
+            if container == "tuple":
+                names = tuple(names)
             names_snapshot = copy.deepcopy(names)
             clock = Clock()
             model = Models(rnd.choice(["scalar", "multi", "linear"]), names, exact=False, clock=clock)
@@ -69,7 +77,8 @@ def main(run):
             overrides = None
             if use_over:
                 overrides = {"n_inner": rnd.choice([1, 2, 3]), "alpha": rnd.choice([0.001, 0.3, 1.0]), "dyn": rnd.random() < .5,
-                             "storage": True, "interval": rnd.choice([1, 2, 3]), "window": rnd.choice([2, 4])}
+                             "storage": True, "interval": rnd.choice([1, 2, 3]), "window": rnd.choice([2, 4]),
+                             "own_imputer": rnd.random() < 0.5}
             seed = rnd.randrange(2 ** 31)
             random.seed(seed)
             np.random.seed(seed)
@@ -86,9 +95,19 @@ def main(run):
             incremental = cls_name.startswith("Incremental")
             explained = 0
             manual_first = incremental and st is not None and rnd.random() < 0.4    # user-managed storage: first call flagged off
-            for t in range(7):
+            ncalls = 7 if rnd.random() > 0.03 else 300          # a few long histories (counters beyond 256, default storage filling up)
+            for t in range(ncalls):
                 x = {f: 1000 * (t + 1) + j for j, f in enumerate(names)}
+                if t < 3 and cls_name.startswith("Incremental") and model.kind != "linear" and rep % 2 == 1:
+                    x["optional_input"] = 500 + t       # an unexplained model input that later observations no longer carry
                 y = float(rnd.randrange(-5, 6))
+                if t == 3 and use_over and overrides.get("_imputer_obj") is not None:
+                    # another explainer is built around the SAME imputer object (no storage argument): must not disturb this one
+                    try:
+                        other_cls = IncrementalPFI if cls_name == "IncrementalSage" else IncrementalSage
+                        other_cls(model, loss, list(names), imputer=overrides["_imputer_obj"], smoothing_alpha=0.5)
+                    except Exception as ex:
+                        run.other_error(f"second-explainer-construct:{type(ex).__name__}")
                 x0, y0 = copy.deepcopy(x), copy.deepcopy(y)
                 kw = {}
                 if t > 0 and rnd.random() < 0.3:
@@ -118,7 +137,7 @@ def main(run):
                 bad = []
                 if x != x0 or y != y0:
                     bad.append(("mutation", f"x or y modified: {x0!r} -> {x!r}"))
-                if names != names_snapshot or list(e.feature_names) != names_snapshot:
+                if names != names_snapshot or list(e.feature_names) != list(names_snapshot):
                     bad.append(("mutation", f"feature-name list modified: {names!r}"))
                 if not (ret == e.importance_values):
                     bad.append(("return-value", "returned dict differs from importance_values"))
@@ -150,7 +169,7 @@ def main(run):
                         ups = [i for i, ev in enumerate(log) if ev[0] == "storage.update"]
                         if kw.get("update_storage", True):
                             others = [i for i, ev in enumerate(log) if ev[0] in ("model", "loss")]
-                            if len(ups) != 1 or log[ups[0]][1] is not x or log[ups[0]][2] != y or (others and ups[0] < max(others)):
+                            if len(ups) != 1 or log[ups[0]][1] is not x or log[ups[0]][1] != x0 or log[ups[0]][2] != y or (others and ups[0] < max(others)):
                                 bad.append(("storage-update-order", f"storage update events at {ups} of {len(log)} log entries"))
                         elif ups:
                             bad.append(("storage-update-order", "storage updated although update_storage=False"))
